@@ -10,7 +10,7 @@ COQ_CASE_TYPE = "case05"
 SHARD = 60
 RULE = ("a connected, error-free object, then one request (or 2-5 requests in a row): request strings from a grammar (one letter, one letter + arguments, two letters, "
         "with surrounding blanks/tabs/newlines); reply streams built from the conforming reply with one disturbance per I/O position: SerialException at the write or at "
-        "any read, 24/25/26/27 empty reads before the reply (retry boundary), device error line, wrong-name line, silence; every one of the 32 request methods with a "
+        "any read, 24/25/26/27 empty reads before the reply (retry boundary), device error line (bare, and one that begins with the request's own name), wrong-name line, silence; every one of the 32 request methods with a "
         "fault at every I/O position of its nominal exchange (systematic), plus undisturbed sequences whose return values are judged against the device model; "
         "non-trivial = the call consumed at least two events")
 TRUSTED = ["pyserial behaviour = fake port (write/readline succeed, b'' on timeout, or SerialException)",
@@ -58,8 +58,10 @@ def generate(rng, tier):
             nom = S.nominal(c, rng)
             add([c], [nom], "clean/%s" % m, [_expected(c, nom)])
             for i in range(len(nom)):
-                for kind, repl in (("fault", ["F"]), ("errline", [("L", "!Err: 5")]), ("wrongname", [("L", "ZZ,1")]), ("silence", ["E"] * 30)):
-                    if kind in ("errline", "wrongname") and nom[i] == "E": continue          # those replace a reply, not a write
+                nm_i = nom[i][1].split(",")[0] if isinstance(nom[i], tuple) else ""
+                for kind, repl in (("fault", ["F"]), ("errline", [("L", "!Err: 5")]), ("wrongname", [("L", "ZZ,1")]), ("silence", ["E"] * 30),
+                                   ("nameerr", [("L", nm_i + ",Err: 7")]), ("nameerr2", [("L", nm_i + " Err: bad")])):
+                    if kind in ("errline", "wrongname", "nameerr", "nameerr2") and nom[i] == "E": continue          # those replace a reply, not a write
                     ev = nom[:i] + repl + nom[i + 1:]
                     add([c, S.random_call(rng)], [ev, S.nominal(("status",), rng)], "%s@%d/%s" % (kind, i, m))
     # 2. request grammar x retry boundary
@@ -77,8 +79,8 @@ def generate(rng, tier):
             ne = rng.choice([0, 1, 24, 25, 26, 27]); ev = ["E"] + ["E"] * ne + [("L", reply)]; fam = "empties%d" % ne
             # the request waits through up to 25 empty reads: the reply is accepted iff at most 25 empties precede it
             exp = (_expected(call, ev) if not (body in ("R", "RB", "BL")) else "SKIP") if ne <= 25 else "FAIL"
-        elif k < 0.5: ev = ["E", ("L", rng.choice(["!8 Err: unknown", nm + ",Err: 3", "Err:"]))]; fam = "errline"
-        elif k < 0.65: ev = ["E", ("L", rng.choice(["OK", "ZZ", nm[::-1] + "x", nm.lower() if nm.lower() != nm else "x" + nm]))]; fam = "wrongname"
+        elif k < 0.5: ev = ["E", ("L", rng.choice(["!8 Err: unknown", nm + ",Err: 3", nm + ",Err: 3", nm + ",1,Err:", "Err:"]))]; fam = "errline"; exp = "FAIL"
+        elif k < 0.65: ev = ["E", ("L", rng.choice(["OK", "ZZ", (nm[::-1] + "x") if (len(nm) == 2 and nm[0] != nm[1]) else ("x" + nm), nm.lower() if nm.lower() != nm else "x" + nm]))]; fam = "wrongname"; exp = "FAIL"
         elif k < 0.8: ev = ["E"] + ["E"] * rng.randint(0, 5) + ["F"]; fam = "readfault"
         elif k < 0.88: ev = ["F"]; fam = "writefault"
         else: ev = ["E", ("L", " " + reply + "  ")]; fam = "padded-reply"
